@@ -231,7 +231,7 @@ Inductive result := Accepted (sub : string) | Failed (e : err).
 
 (** Claims.Validate: issuer, audience, validity, issuance time, scopes — in this order *)
 Definition validate (fixed_F1 fixed_F2 : bool) (e : expectation) (now : Z) (c : claims) : option err :=
-  if negb (mem (c_iss c) (e_issuers e)) then Some EAssertion
+  if String.eqb (c_iss c) "" || negb (mem (c_iss c) (e_issuers e)) then Some EAssertion   (* AssertIssuer; the empty-issuer test is fix: d55629a (C05-F5) *)
   else if negb (is_nil (e_aud e)) && negb (intersects (e_aud e) (strs_of (c_aud c))) then Some EAssertion
   else if negb (assert_validity fixed_F1 e now
                   (negb (date_unix fixed_F2 (c_nbf c) =? zero_time_unix)%Z)      (* !notBefore.IsZero() *)
